@@ -372,10 +372,15 @@ P("C18", "proof", "Lean 4 theorems: byte-level fault-capable transcriptions (che
               "site table; stack, allocation and time are explored under catch_unwind with a time limit on long inputs of every shape.",
   design_ref="§5 C18", extra_tb=["gen/partial.py (partial-operation site table)"])
 
-P("C19", "translation_validation", "conversion chains vs std (implementation vs oracle)",
+P("C19", "translation_validation", "conversion chains vs std (implementation vs oracle) + a Lean obligation tying the chains to the regenerated list of conversion impls",
   "Every conversion the crate offers is driven on valid and invalid UTF-8 byte strings and compared with the input bytes, "
-  "std's from_utf8 / from_utf8_lossy.",
-  TV_NOTE + "The repr(transparent) pointer casts are exercised, not proved.",
+  "std's from_utf8 / from_utf8_lossy. gen/api.py regenerates, on every run, the list of every conversion / formatting "
+  "trait impl the source declares (AsRef, From, TryFrom, TryAsRef, Borrow, FromStr, Extend, FromIterator, IntoIterator, "
+  "Default, Deref, ToOwned, Display: 179 impls); conv_impls_covered proves it equal to the list the oracle's chains were "
+  "written against, so a conversion added to or removed from the crate is reported.",
+  TV_NOTE + "The repr(transparent) pointer casts are exercised, not proved. conv_impls_covered is a statement about the "
+  "regenerated table (regex extraction, trusted), not about the behaviour of the conversions.",
+  theorems=["TP.C19.conv_impls_covered"],
   rule="all byte strings <= 4 over a 9-byte alphabet with valid and invalid UTF-8 sequences; non-trivial = contains a non-ASCII byte", design_ref="§5 C19")
 
 P("C20", "translation_validation", "two builds (std / no-default-features) vs one model, op by op + Lean theorem over the generated cfg-site table",
